@@ -230,6 +230,18 @@ def ssiLayer (chunks : List (List Int)) (index : List Ix) : List (List Nat × Li
   let allSlices := cart (bs.map (fun s => s.map (·.2)))
   zip3 outNames inNames allSlices
 
+/-- SPEC vocabulary: the wiring of one axis — `(output block number if the axis survives,
+input block, local index)`, one cell per visited input block. -/
+def axisCells (lengths : List Int) (ix : Ix) : List (Option Nat × Nat × Loc) :=
+  match outRange1 lengths ix with
+  | some o => (o.map some).zip (blockSlices1 lengths ix)
+  | none => (blockSlices1 lengths ix).map (fun p => (none, p))
+
+/-- a grid cell (one `axisCells` entry per axis) as `_layer` writes it:
+`(out block, in block, local indices)`. -/
+def splitCell (t : List (Option Nat × Nat × Loc)) : List Nat × List Nat × List Loc :=
+  (t.filterMap (fun c => c.1), t.map (fun c => c.2.1), t.map (fun c => c.2.2))
+
 /-- `SliceSlicesIntegers.chunks`. -/
 def ssiChunks : List (List Int) → List Ix → List (List Int)
   | lengths :: cs, .slc s :: is => newBlockdim (isum lengths) lengths s :: ssiChunks cs is
